@@ -316,7 +316,9 @@ impl<'data> ProguardCache<'data> {
         // At this point, we know how many members/members-by-params each class has because we kept count,
         // but we don't know where each class's entries start. We'll rectify that below.
 
-        let mut writer = watto::Writer::new(writer);
+        // `watto::Writer::align_to` emits padding with a single `write` call and ignores how many
+        // bytes were accepted, so hand it a sink whose `write` never accepts fewer bytes than requested.
+        let mut writer = watto::Writer::new(WriteAll(writer));
         let string_bytes = string_table.into_bytes();
 
         let num_members = classes.values().map(|c| c.class.members_len).sum::<u32>();
@@ -425,4 +427,19 @@ struct ClassInProgress<'data> {
     /// A map to keep track of which combinations of (obfuscated method name, original method name, parameters)
     /// we have already seen for this class.
     unique_methods: HashSet<(&'data str, &'data str, &'data str)>,
+}
+
+/// Adapter that turns every `write` into a `write_all`, so a sink that accepts only part of a
+/// buffer per call (files, pipes, sockets) cannot lose bytes.
+struct WriteAll<W>(W);
+
+impl<W: Write> Write for WriteAll<W> {
+    fn write(&mut self, buf: &[u8]) -> std::io::Result<usize> {
+        self.0.write_all(buf)?;
+        Ok(buf.len())
+    }
+
+    fn flush(&mut self) -> std::io::Result<()> {
+        self.0.flush()
+    }
 }
